@@ -335,6 +335,12 @@ class Array(AbstractValueWithQuantityObject, Generic[ValuesType]):
         return values_str + self.GetFormattedSuffix()
 
     # Basic operators ------------------------------------------------------------------------------
+
+    # Opt out of numpy's ufunc dispatch: with a numpy array or numpy scalar on the left side of an
+    # operator numpy would otherwise iterate over this Array and return a bare ndarray (dropping
+    # the unit) instead of deferring to the reflected operators below.
+    __array_ufunc__ = None
+
     def __len__(self) -> int:
         return len(self.values)
 
